@@ -217,7 +217,7 @@ func (e *pvEnv) setEntry(m pvMsg) {
 // installed reports which shared secret the connection's secure session was installed with ("plain" if none).
 func (e *pvEnv) installed(addr string) string {
 	sess := e.f.Session(addr)
-	sess.Decrypter() // promotes a pending cryptographer exactly as the next Read of the connection would
+	responseWritten(e.f.ctx, e.f.raw[addr]) // the handler's response is out: a negotiated cryptographer becomes current
 	enc := sess.Encrypter()
 	if enc == nil {
 		return "plain"
